@@ -155,10 +155,10 @@ theorem nulldummy_logic (env : Env) (sub : List POp) (s : St) (dummy : Bytes) (r
     (hs : s.ds = [] :: [] :: dummy :: rest) (hmax : 0 ≤ (env.cfg.maxPubKeys : Int)) (hops : s.numOps ≤ env.cfg.maxOps) :
     opCheckMultiSig env sub s = .err "ErrSigNullDummy" := by
   have hd' : (dummy.length != 0) = true := by simp [hd]
-  simp [opCheckMultiSig, hs, toNum, makeScriptNumber, isMinimalNum, decodeNum, wrap64, popN, hf, hd', hops]
+  simp [opCheckMultiSig, hs, toNum, makeScriptNumber, isMinimalNum, decodeNum, clamp64, popN, hf, hd', hops]
   have h1 : ¬ ((env.cfg.maxPubKeys : Int) < 0) := by omega
   have h2 : ¬ (env.cfg.maxOps < s.numOps) := by omega
-  simp [h1, h2]
+  try simp [h1, h2]
 
 
 /-- An empty signature is never a hard failure: OP_CHECKSIG pushes false. -/
